@@ -40,7 +40,9 @@ type Recorder struct {
 	// TolerateUpdateOfAbsent: the Kubernetes informer delivers updates for objects whose creation was rejected.
 	TolerateUpdateOfAbsent bool
 	Calls                  int
-	provider               string
+	// Silent: do not write processor calls into the trace as they happen (harnesses on the wall clock log them at quiescent points).
+	Silent   bool
+	provider string
 }
 
 func NewRecorder(r *simcore.Run, provider string) *Recorder {
@@ -53,7 +55,9 @@ func (p *Recorder) OnCreated(rs *rconfig.RuleSet) error {
 	p.Calls++
 	id := ContentID(rs.Rules)
 	p.Log = append(p.Log, fmt.Sprintf("C %s %s", short(rs.Source), id))
-	p.run.Logf("processor: created %s content=%s rejecting=%v", short(rs.Source), id, p.Rejecting)
+	if !p.Silent {
+		p.run.Logf("processor: created %s content=%s rejecting=%v", short(rs.Source), id, p.Rejecting)
+	}
 	if cur, ok := p.active[rs.Source]; ok {
 		p.run.Fail("created-while-active", p.provider, "OnCreated for %s (content %s) although content %s is active: the change is applied twice or as the wrong kind", short(rs.Source), id, cur)
 	}
@@ -73,7 +77,9 @@ func (p *Recorder) OnUpdated(rs *rconfig.RuleSet) error {
 	p.Calls++
 	id := ContentID(rs.Rules)
 	p.Log = append(p.Log, fmt.Sprintf("U %s %s", short(rs.Source), id))
-	p.run.Logf("processor: updated %s content=%s rejecting=%v", short(rs.Source), id, p.Rejecting)
+	if !p.Silent {
+		p.run.Logf("processor: updated %s content=%s rejecting=%v", short(rs.Source), id, p.Rejecting)
+	}
 	cur, ok := p.active[rs.Source]
 	if !ok && !p.TolerateUpdateOfAbsent {
 		p.run.Fail("updated-while-absent", p.provider, "OnUpdated for %s (content %s) although nothing is active for it", short(rs.Source), id)
@@ -93,7 +99,9 @@ func (p *Recorder) OnDeleted(rs *rconfig.RuleSet) error {
 	defer p.mu.Unlock()
 	p.Calls++
 	p.Log = append(p.Log, fmt.Sprintf("D %s", short(rs.Source)))
-	p.run.Logf("processor: deleted %s", short(rs.Source))
+	if !p.Silent {
+		p.run.Logf("processor: deleted %s", short(rs.Source))
+	}
 	if _, ok := p.active[rs.Source]; !ok {
 		p.run.Fail("deleted-while-absent", p.provider, "OnDeleted for %s although nothing is active for it", short(rs.Source))
 	}
